@@ -200,3 +200,47 @@ func Verif_C07_table_terminates() {
 	verifapi.Cover("table-computed")
 	verifapi.Assert("lock-released", verifapi.HeldLocks() == 0)
 }
+
+// Verif_C07_updates_while_the_table_is_being_rebuilt: the node's table-rebuild runner is the real
+// arrangement - ONE goroutine that receives rebuild requests and runs updateRoutingTable itself (as
+// tickrunner.Run does). A peer's well-formed routing updates that change the picture keep arriving
+// while a rebuild is under way: two updates in a row, the second one reaching the handler when the
+// runner is already inside (or queued for) the rebuild. Nothing wedges: both updates are handled, the
+// runner comes back to wait for requests, no lock stays held.
+func Verif_C07_updates_while_the_table_is_being_rebuilt() {
+	n := verifNetceptor("A")
+	s := n.s
+	n.verifConn("B", 1)
+	s.knownConnectionCosts["A"] = map[string]float64{"B": 1}
+	s.knownConnectionCosts["B"] = map[string]float64{"A": 1}
+	s.knownNodeInfo["B"] = &nodeInfo{Epoch: 1, Sequence: 1}
+	// the runner: receives a request, rebuilds, receives the next ...
+	s.updateRoutingTableChan = make(chan time.Duration)
+	rebuilds := 0
+	go func() {
+		for range s.updateRoutingTableChan {
+			s.updateRoutingTable()
+			rebuilds++
+		}
+	}()
+	verifapi.ExploreSchedules(verifapi.Tier())
+	handled := make(chan bool, 2)
+	go func() {
+		s.handleRoutingUpdate(&routingUpdate{NodeID: "B", UpdateID: "g1", UpdateEpoch: 1, UpdateSequence: 2,
+			Connections: map[string]float64{"A": 1, "G": 1}, ForwardingNode: "B"}, "B")
+		s.handleRoutingUpdate(&routingUpdate{NodeID: "B", UpdateID: "g2", UpdateEpoch: 1, UpdateSequence: 3,
+			Connections: map[string]float64{"A": 1, "H": 1}, ForwardingNode: "B"}, "B")
+		handled <- true
+	}()
+	verifapi.Quiesce()
+	verifapi.ExploreSchedules(0)
+	verifapi.Cover("two-updates-during-rebuilds")
+	select {
+	case <-handled:
+	default:
+		verifapi.Assert("routing-updates-are-handled-while-a-rebuild-is-under-way", false)
+	}
+	verifapi.Assert("picture-is-the-latest-update", len(s.knownConnectionCosts["B"]) == 2 && s.knownConnectionCosts["B"]["H"] == 1)
+	verifapi.Assert("rebuilds-ran", rebuilds >= 1)
+	verifapi.Assert("no-lock-left-held", verifapi.HeldLocks() == 0)
+}
